@@ -204,12 +204,8 @@ Fixpoint anode_eqb (a b : anode) : bool :=
   | _, _ => false
   end.
 
-(* the abstract tree a printed document can carry: empty arrays of tables dropped, values before tables *)
-Definition expected_tbl (t : tbl) : anode :=
-  match drop_empty_aot (ATbl (abs_tbl t)) with
-  | [n] => norm_node n
-  | _ => ATbl []
-  end.
+(* the abstract tree a printed document carries: values before tables, empty arrays of tables dropped *)
+Definition expected_tbl (t : tbl) : anode := ATbl (printed_entries (abs_tbl t)).
 
 (* ---- commands --------------------------------------------------------------------------------- *)
 Definition cmd_build (script : bytes) : bytes :=
